@@ -18,8 +18,17 @@
 (*                 drains in[w]); Protocol = "repaired": close(shutdown),     *)
 (*                 every worker drains in[w] into batches, flushes the rest,  *)
 (*                 deferred wg.Done().                                        *)
-(* The dispatcher is two steps (call, then the channel send / default         *)
-(* branch) so that a blocked caller is a state.                               *)
+(* A Dispatch call is two steps (call, then the channel send / default        *)
+(* branch); up to NDisp calls (of different series: one series is fed by one  *)
+(* goroutine) are in progress at a time.  A blocking send on a full in[w]     *)
+(* parks the caller on sendq[w]; as in the Go runtime a receive from a full   *)
+(* channel with parked senders hands the freed slot to the first of them in   *)
+(* the same step, and THAT is when its Dispatch returns (the point is         *)
+(* accepted into the route's buffer).  Shutdown may be requested while        *)
+(* callers are parked (every call in progress has reached its channel         *)
+(* operation), so the draining worker keeps receiving what they enqueue.      *)
+(* Outage = TRUE (scenario generation / safety only): the endpoint fails      *)
+(* every POST until the shutdown signal has been given.                       *)
 (* The level-A observation record o (GrafanaNetOps) is updated at the points  *)
 (* where the outside world sees something; the C17 clauses are checked on it  *)
 (* and, independently, as invariants / temporal properties on the model's     *)
@@ -33,6 +42,8 @@ CONSTANTS NW,           \* Concurrency
           MaxFaults,    \* the environment injects at most this many failures (finitely many)
           FaultKinds,   \* subset of {"4xx", "5xx", "timeout", "reset"}
           Blocking,     \* dispatchBlocking / dispatchNonBlocking
+          NDisp,        \* Dispatch calls in progress at a time (dispatcher goroutines)
+          Outage,       \* the endpoint answers no POST with 2xx before the shutdown signal
           AllowShutdown,
           Protocol,     \* "pinned" | "repaired"
           Mutant,       \* "" or a named deviation (non-vacuity of the properties)
@@ -46,7 +57,9 @@ VARIABLES in,      \* [Workers -> Seq(<<series, id>>)]
           batch,   \* [Workers -> Seq(<<series, id>>)]   `metrics` of run()
           pc,      \* [Workers -> "select" | "num" | "attempt" | "backoff" | "drain" | "exited"]
           ret,     \* [Workers -> where retryFlush returns to: "select" | "exit" | "drain" | "done"]
-          dpc,     \* the Dispatch call in progress (None or [id, s])
+          calls,   \* Dispatch calls in progress that have not reached the channel operation: set of [id, s]
+          sendq,   \* [Workers -> Seq(<<series, id>>)]   callers parked on the full in[w] (blocking mode), FIFO
+          dn,      \* [Workers -> Nat]  deviation drain_counted_once: receives left in the shutdown drain
           nd,      \* points handed to Dispatch so far
           nfaults,
           drops,   \* numDropBuffFull
@@ -57,7 +70,7 @@ VARIABLES in,      \* [Workers -> Seq(<<series, id>>)]
           o,       \* level-A observation
           hist     \* environment history (only when Record)
 
-vars == <<in, batch, pc, ret, dpc, nd, nfaults, drops, lost, spc, closed, wg, o, hist>>
+vars == <<in, batch, pc, ret, calls, sendq, dn, nd, nfaults, drops, lost, spc, closed, wg, o, hist>>
 
 Shard(s, id) == IF Mutant = "shard_by_point" THEN id % NW ELSE s % NW
 
@@ -65,37 +78,52 @@ H(e) == IF Record THEN Append(hist, e) ELSE hist
 
 Init == /\ in = [w \in Workers |-> <<>>] /\ batch = [w \in Workers |-> <<>>]
         /\ pc = [w \in Workers |-> "select"] /\ ret = [w \in Workers |-> "select"]
-        /\ dpc = None /\ nd = 0 /\ nfaults = 0 /\ drops = 0 /\ lost = {}
+        /\ calls = {} /\ sendq = [w \in Workers |-> <<>>] /\ dn = [w \in Workers |-> 0] /\ nd = 0 /\ nfaults = 0 /\ drops = 0 /\ lost = {}
         /\ spc = "idle" /\ closed = FALSE /\ wg = NW
         /\ o = ObsInit(Series) /\ hist = <<>>
 
 ------------------------------------------------------------------------------
 (* Dispatch *)
+RECURSIVE SumParked(_)
+SumParked(W) == IF W = {} THEN 0 ELSE LET w == CHOOSE x \in W : TRUE IN Len(sendq[w]) + SumParked(W \ {w})
+NParked == SumParked(Workers)
+Pending(s) == (\E c \in calls : c.s = s) \/ (\E w \in Workers : \E i \in DOMAIN sendq[w] : sendq[w][i][1] = s)
+
 DispatchCall(s) ==
-  /\ spc = "idle" /\ dpc = None /\ nd < MaxMetrics
-  /\ nd' = nd + 1 /\ dpc' = [id |-> nd + 1, s |-> s]
+  /\ spc = "idle" /\ nd < MaxMetrics /\ Cardinality(calls) + NParked < NDisp /\ ~Pending(s)
+  /\ (Outage => o.last[s] = 0)       \* outage scenarios: one point per series, each by its own dispatcher
+  /\ nd' = nd + 1 /\ calls' = calls \cup {[id |-> nd + 1, s |-> s]}
   /\ o' = ODisp(o, s, nd + 1, 0) /\ hist' = H([op |-> "d", s |-> s])
-  /\ UNCHANGED <<in, batch, pc, ret, nfaults, drops, lost, spc, closed, wg>>
+  /\ UNCHANGED <<in, batch, pc, ret, sendq, dn, nfaults, drops, lost, spc, closed, wg>>
 
 Room(w) == Len(in[w]) < Cap
 Blocks == Blocking \/ Mutant = "nb_no_default"
-CanDo == dpc # None /\ (Room(Shard(dpc.s, dpc.id)) \/ ~Blocks)
-Stuck == dpc # None /\ ~CanDo
+Stuck == \E w \in Workers : sendq[w] # <<>>
 
-DispatchDo ==
-  /\ CanDo
-  /\ LET w == Shard(dpc.s, dpc.id) IN
+\* the channel operation of dispatchBlocking / dispatchNonBlocking
+DispatchDo(c) ==
+  /\ c \in calls /\ calls' = calls \ {c}
+  /\ LET w == Shard(c.s, c.id) IN
      IF Room(w)
-     THEN /\ in' = [in EXCEPT ![w] = Append(@, <<dpc.s, dpc.id>>)]
-          /\ o' = ORet(o, dpc.id, "acc", FALSE, Blocking, 0)
-          /\ UNCHANGED <<drops, lost>>
-     ELSE /\ lost' = lost \cup {dpc.id}
+     THEN /\ in' = [in EXCEPT ![w] = Append(@, <<c.s, c.id>>)]
+          /\ o' = ORet(o, c.id, "acc", FALSE, Blocking, 0)
+          /\ UNCHANGED <<drops, lost, sendq>>
+     ELSE IF Blocks
+     THEN /\ sendq' = [sendq EXCEPT ![w] = Append(@, <<c.s, c.id>>)]      \* parks; Dispatch has not returned
+          /\ UNCHANGED <<in, drops, lost, o>>
+     ELSE /\ lost' = lost \cup {c.id}
           /\ IF Mutant = "drop_uncounted"
-             THEN drops' = drops /\ o' = ORet(o, dpc.id, "acc", FALSE, Blocking, 0)
-             ELSE drops' = drops + 1 /\ o' = ORet(o, dpc.id, "drop", FALSE, Blocking, 0)
-          /\ UNCHANGED in
-  /\ dpc' = None
-  /\ UNCHANGED <<batch, pc, ret, nd, nfaults, spc, closed, wg, hist>>
+             THEN drops' = drops /\ o' = ORet(o, c.id, "acc", FALSE, Blocking, 0)
+             ELSE drops' = drops + 1 /\ o' = ORet(o, c.id, "drop", FALSE, Blocking, 0)
+          /\ UNCHANGED <<in, sendq>>
+  /\ UNCHANGED <<batch, pc, ret, dn, nd, nfaults, spc, closed, wg, hist>>
+
+\* `buf := <-in[w]` (in[w] not empty): the head leaves; if a caller is parked its point takes the freed slot and
+\* its Dispatch call returns
+Recv(w) ==
+  /\ in' = [in EXCEPT ![w] = IF sendq[w] # <<>> THEN Append(Tail(@), Head(sendq[w])) ELSE Tail(@)]
+  /\ sendq' = [sendq EXCEPT ![w] = IF @ # <<>> THEN Tail(@) ELSE @]
+  /\ o' = IF sendq[w] # <<>> THEN ORet(o, Head(sendq[w])[2], "acc", FALSE, Blocking, 0) ELSE o
 
 ------------------------------------------------------------------------------
 (* worker select loop *)
@@ -104,23 +132,24 @@ Enter(w, r) == pc' = [pc EXCEPT ![w] = "attempt"] /\ ret' = [ret EXCEPT ![w] = r
 Take(w) ==
   /\ pc[w] = "select" /\ in[w] # <<>>
   /\ batch' = [batch EXCEPT ![w] = Append(@, Head(in[w]))]
-  /\ in' = [in EXCEPT ![w] = Tail(@)]
+  /\ Recv(w)
   /\ pc' = [pc EXCEPT ![w] = IF Len(batch'[w]) = FlushMaxNum THEN "num" ELSE "select"]
-  /\ UNCHANGED <<ret, dpc, nd, nfaults, drops, lost, spc, closed, wg, o, hist>>
+  /\ UNCHANGED <<ret, calls, dn, nd, nfaults, drops, lost, spc, closed, wg, hist>>
 
 FlushOnNum(w) ==
   /\ pc[w] = "num"
   /\ IF Mutant = "flush_loses_last"
      THEN batch' = [batch EXCEPT ![w] = SubSeq(@, 1, Len(@) - 1)] /\ (IF Len(batch[w]) = 1 THEN pc' = [pc EXCEPT ![w] = "select"] /\ UNCHANGED ret ELSE Enter(w, "select"))
      ELSE Enter(w, "select") /\ UNCHANGED batch
-  /\ UNCHANGED <<in, dpc, nd, nfaults, drops, lost, spc, closed, wg, o, hist>>
+  /\ UNCHANGED <<in, calls, sendq, dn, nd, nfaults, drops, lost, spc, closed, wg, o, hist>>
 
 FlushOnTimer(w) ==
   /\ pc[w] = "select" /\ batch[w] # <<>>       \* with an empty batch retryFlush returns at once: a stuttering step
   /\ Enter(w, "select") /\ hist' = H([op |-> "t"])
-  /\ UNCHANGED <<in, batch, dpc, nd, nfaults, drops, lost, spc, closed, wg, o>>
+  /\ UNCHANGED <<in, batch, calls, sendq, dn, nd, nfaults, drops, lost, spc, closed, wg, o>>
 
-Outcomes == {"2xx"} \cup (IF nfaults < MaxFaults THEN FaultKinds ELSE {})
+Down == Outage /\ ~closed /\ spc # "returned"
+Outcomes == IF Down THEN FaultKinds ELSE {"2xx"} \cup (IF nfaults < MaxFaults THEN FaultKinds ELSE {})
 
 \* where a worker goes when retryFlush returns
 Return(w) ==
@@ -133,38 +162,38 @@ GiveUp(k) == Mutant = "give_up" /\ k = "4xx"      \* deviation: a client error i
 Attempt(w, k) ==
   /\ pc[w] = "attempt" /\ k \in Outcomes
   /\ o' = OPost(o, batch[w], k, 0) /\ hist' = H([op |-> "f", k |-> k])
-  /\ nfaults' = IF k = "2xx" THEN nfaults ELSE nfaults + 1
+  /\ nfaults' = IF k = "2xx" \/ Down THEN nfaults ELSE nfaults + 1
   /\ IF k = "2xx" \/ GiveUp(k)
      THEN batch' = [batch EXCEPT ![w] = <<>>] /\ Return(w)
      ELSE /\ pc' = [pc EXCEPT ![w] = "backoff"]
           /\ batch' = IF Mutant = "retry_reorders" /\ Len(batch[w]) > 1
                       THEN [batch EXCEPT ![w] = Tail(@) \o <<Head(@)>>] ELSE batch
           /\ UNCHANGED wg
-  /\ UNCHANGED <<in, ret, dpc, nd, drops, lost, spc, closed>>
+  /\ UNCHANGED <<in, ret, calls, sendq, dn, nd, drops, lost, spc, closed>>
 
 Backoff(w) ==
   /\ pc[w] = "backoff" /\ pc' = [pc EXCEPT ![w] = "attempt"]
-  /\ UNCHANGED <<in, batch, ret, dpc, nd, nfaults, drops, lost, spc, closed, wg, o, hist>>
+  /\ UNCHANGED <<in, batch, ret, calls, sendq, dn, nd, nfaults, drops, lost, spc, closed, wg, o, hist>>
 
 ------------------------------------------------------------------------------
 (* Shutdown *)
 SdCall ==
-  /\ AllowShutdown /\ spc = "idle" /\ dpc = None
-  /\ spc' = "call" /\ o' = OSdCall(o, 0) /\ hist' = H([op |-> "sd"])
-  /\ UNCHANGED <<in, batch, pc, ret, dpc, nd, nfaults, drops, lost, closed, wg>>
+  /\ AllowShutdown /\ spc = "idle" /\ calls = {}      \* every call in progress is parked on its full queue
+  /\ spc' = "call" /\ o' = OSdCall(o, 0) /\ hist' = H([op |-> "sd", parked |-> NParked])
+  /\ UNCHANGED <<in, batch, pc, ret, calls, sendq, dn, nd, nfaults, drops, lost, closed, wg>>
 
 \* pinned: route.shutdown <- struct{}{} meets the `case <-route.shutdown` of ONE worker
 SdSignal(w) ==
   /\ Protocol = "pinned" /\ spc = "call" /\ pc[w] = "select"
   /\ spc' = "wait"
   /\ IF batch[w] # <<>> THEN Enter(w, "exit") ELSE pc' = [pc EXCEPT ![w] = "exited"] /\ UNCHANGED ret
-  /\ UNCHANGED <<in, batch, dpc, nd, nfaults, drops, lost, closed, wg, o, hist>>
+  /\ UNCHANGED <<in, batch, calls, sendq, dn, nd, nfaults, drops, lost, closed, wg, o, hist>>
 
 \* repaired: close(route.shutdown)
 SdClose ==
   /\ Protocol = "repaired" /\ spc = "call"
   /\ closed' = TRUE /\ spc' = "wait"
-  /\ UNCHANGED <<in, batch, pc, ret, dpc, nd, nfaults, drops, lost, wg, o, hist>>
+  /\ UNCHANGED <<in, batch, pc, ret, calls, sendq, dn, nd, nfaults, drops, lost, wg, o, hist>>
 
 OnClosed(w) ==
   /\ pc[w] = "select" /\ closed
@@ -172,37 +201,40 @@ OnClosed(w) ==
      THEN IF batch[w] # <<>> THEN Enter(w, "done") /\ UNCHANGED wg
           ELSE pc' = [pc EXCEPT ![w] = "exited"] /\ wg' = wg - 1 /\ UNCHANGED ret
      ELSE pc' = [pc EXCEPT ![w] = "drain"] /\ UNCHANGED <<ret, wg>>
-  /\ UNCHANGED <<in, batch, dpc, nd, nfaults, drops, lost, spc, closed, o, hist>>
+  \* deviation: the drain is bounded by len(in) taken now
+  /\ dn' = IF Mutant = "drain_counted_once" THEN [dn EXCEPT ![w] = Len(in[w])] ELSE dn
+  /\ UNCHANGED <<in, batch, calls, sendq, nd, nfaults, drops, lost, spc, closed, o, hist>>
 
 \* the inner select of the repaired shutdown branch: `case buf := <-in` / `default`
 Drain(w) ==
   /\ pc[w] = "drain"
-  /\ IF in[w] # <<>>
+  /\ IF in[w] # <<>> /\ (Mutant = "drain_counted_once" => dn[w] > 0)
      THEN /\ batch' = [batch EXCEPT ![w] = Append(@, Head(in[w]))]
-          /\ in' = [in EXCEPT ![w] = Tail(@)]
+          /\ Recv(w)
+          /\ dn' = IF Mutant = "drain_counted_once" THEN [dn EXCEPT ![w] = @ - 1] ELSE dn
           /\ IF Len(batch'[w]) = FlushMaxNum THEN Enter(w, "drain") ELSE UNCHANGED <<pc, ret>>
           /\ UNCHANGED wg
-     ELSE /\ UNCHANGED <<in, batch>>
+     ELSE /\ UNCHANGED <<in, batch, sendq, dn, o>>
           /\ IF batch[w] # <<>> /\ Mutant # "no_final_flush" THEN Enter(w, "done") /\ UNCHANGED wg
              ELSE pc' = [pc EXCEPT ![w] = "exited"] /\ wg' = wg - 1 /\ UNCHANGED ret
-  /\ UNCHANGED <<dpc, nd, nfaults, drops, lost, spc, closed, o, hist>>
+  /\ UNCHANGED <<calls, nd, nfaults, drops, lost, spc, closed, hist>>
 
 SdWait ==
   /\ spc = "wait" /\ wg = 0
   /\ spc' = "returned" /\ o' = OSdRet(o, Blocking, 0)
-  /\ UNCHANGED <<in, batch, pc, ret, dpc, nd, nfaults, drops, lost, closed, wg, hist>>
+  /\ UNCHANGED <<in, batch, pc, ret, calls, sendq, dn, nd, nfaults, drops, lost, closed, wg, hist>>
 
 ------------------------------------------------------------------------------
 WorkerStep(w) == Take(w) \/ FlushOnNum(w) \/ FlushOnTimer(w) \/ (\E k \in Outcomes : Attempt(w, k)) \/ Backoff(w)
                  \/ OnClosed(w) \/ Drain(w)
 ShutdownStep == (\E w \in Workers : SdSignal(w)) \/ SdClose \/ SdWait
-Next == (\E s \in Series : DispatchCall(s)) \/ DispatchDo \/ SdCall \/ ShutdownStep \/ (\E w \in Workers : WorkerStep(w))
+Next == (\E s \in Series : DispatchCall(s)) \/ (\E c \in calls : DispatchDo(c)) \/ SdCall \/ ShutdownStep \/ (\E w \in Workers : WorkerStep(w))
 
 Spec == Init /\ [][Next]_vars
 \* the scheduler is fair to every goroutine of the route; the environment (new Dispatch calls, the decision to
 \* shut down, which outcome the endpoint gives - at most MaxFaults failures) is not constrained
 Fair == /\ \A w \in Workers : WF_vars(WorkerStep(w))
-        /\ WF_vars(DispatchDo) /\ WF_vars(ShutdownStep)
+        /\ WF_vars(\E c \in calls : DispatchDo(c)) /\ WF_vars(ShutdownStep)
 FairSpec == Spec /\ Fair
 
 ------------------------------------------------------------------------------
@@ -220,6 +252,8 @@ BlockingNeverDrops == Blocking => lost = {} /\ drops = 0
 \* Shutdown returned => everything buffered has been flushed (nothing queued, nothing unacknowledged)
 AllBufferedFlushed == spc = "returned" => InFlight = {} /\ o.accd \subseteq o.acked
 TypeOK == /\ \A w \in Workers : Len(in[w]) <= Cap /\ Len(batch[w]) <= FlushMaxNum
+          /\ \A w \in Workers : sendq[w] # <<>> => Len(in[w]) = Cap      \* callers are parked on a full channel only
+          /\ Cardinality(calls) + NParked <= NDisp
           /\ wg \in 0 .. NW /\ drops \in 0 .. MaxMetrics
 
 \* liveness (finitely many failures, fair scheduling)
@@ -228,7 +262,7 @@ AckedAtLeastOnce == \A id \in 1 .. MaxMetrics : (id \in o.accd) ~> (id \in o.ack
 
 ------------------------------------------------------------------------------
 (* scenario generation (simulation mode, Record = TRUE): print the environment history of finished behaviours *)
-Quiet == /\ dpc = None /\ InFlight = {}
+Quiet == /\ calls = {} /\ ~Stuck /\ InFlight = {}
          /\ \A w \in Workers : pc[w] \in {"select", "exited"}
 Terminal == Quiet /\ nd > 0 /\ (spc = "returned" \/ (spc = "idle" /\ nd = MaxMetrics))
 Emit == Terminal => PrintT("@@S " \o ToJson([hist |-> hist, sd |-> spc = "returned"]))
